@@ -170,7 +170,7 @@ def malformed_quantities(rng, n):
              'unknown_prefix': f'{v} ' + rng.choice(['G', 'T', 'h', 'x', 'mm', 'K']) + rng.choice(['L', 'g', 'mol']),
              'wrong_case': f'{v} ' + rng.choice(['ml', 'ML', 'Mol', 'MOL', 'G', 'KG', 'l', 'UL']),
              'missing_number': rng.choice([f' {u}', u, f'- {u}']),
-             'non_numeric': rng.choice(['five', 'abc', '1,5', '1..2', '1e', '--1', '0x10', '1/2', '½', 'nan', 'NaN', '-nan', '+nan', 'NAN']) + f' {u}',
+             'non_numeric': rng.choice(['five', 'abc', '1,5', '1..2', '1e', '--1', '0x10', '1/2', '½', 'nan', 'NaN', '-nan', '+nan', 'NAN', '1_0', '1_000', '\u0661', '\uff11', '\n1', '1\t']) + f' {u}',
              'extra_tokens': rng.choice([f'{v} {u} extra', f'{v} {u} {u}', f'about {v} {u}', f'{v} {v} {u}']),
              'empty': rng.choice(['', ' ', '  '])}[fam]
         out.append((fam, s))
@@ -188,7 +188,7 @@ def malformed_concentrations(rng, n):
              'unknown_prefix': rng.choice([f'{v} Gmol/L', f'{v} mol/TL', f'{v} xM', f'{v} hg/L']),
              'wrong_case': rng.choice([f'{v} MOL/L', f'{v} mol/ML', f'{v} Mol/L', f'{v} %W/W', f'{v} G/L']),
              'missing_number': rng.choice(['M', ' M', 'mol/L', ' mol/L', '/L', 'g/', ' %w/v']),
-             'non_numeric': rng.choice(['one M', 'abc mol/L', '1,5 M', '1e M', f'{v} mol/x L', f'{v} g/ten mL', 'nan M', 'inf M', '-inf g/L', 'NaN %w/w',
+             'non_numeric': rng.choice(['1_0 mM', '1 mol/1_0 L', '5_0 %w/w', '\u0661 M', 'one M', 'abc mol/L', '1,5 M', '1e M', f'{v} mol/x L', f'{v} g/ten mL', 'nan M', 'inf M', '-inf g/L', 'NaN %w/w',
                                         f'{v} mol/0 L', f'{v} mol/nan L', f'{v} g/inf mL', 'inf mol/inf L', 'nan U/mL', '1e999 M']),
              'extra_tokens': rng.choice([f'{v} mol/L/s', f'{v} mol/L extra', f'{v} M M', f'{v} g/10 mL mL', f'{v} mol per L']),
              'empty': rng.choice(['', ' ', '/'])}[fam]
